@@ -146,7 +146,11 @@ func RunC15(run *ev.Run) {
 	run.Cov["distinct_nontrivial"] = len(cases)
 	run.Cov["traces_validated_against_impl"] = len(cases)
 	run.Cov["exhaustive"] = true
-	run.Cov["rule"] = "product of output:file {absent, ./x/y.go, ../gen/z.go, same directory, no ./ prefix, absolute, @cwd/..., directory name needing normalisation} x output:package {absent, PATH, PATH:NAME, :NAME} x target package {absent, existing with the same name, existing with another name} x invocation {module root, chdir into the package, -cwd} plus multi-converter shapes {two converters one file, two converters one file with different packages (must fail), two files in one package, interface + variables block}; the real CLI runs with umask 0 on a scratch module; oracle: the set of created/changed paths equals the independently predicted set, package clause as predicted (configured name, else existing package, else normalised directory name), new files 0644, new directories 0755, merged files parse and the module builds"
+	// across input packages: where a package's converter lands must not depend on a sibling package of the same run
+	nx := RunXConvFiltered(run, "output-")
+	run.Cov["cross_package_runs"] = nx
+	run.Cov["evaluations"] = len(cases) + nx
+	run.Cov["rule"] = "product of output:file {absent, ./x/y.go, ../gen/z.go, same directory, no ./ prefix, absolute, @cwd/..., directory name needing normalisation} x output:package {absent, PATH, PATH:NAME, :NAME} x target package {absent, existing with the same name, existing with another name} x invocation {module root, chdir into the package, -cwd} plus multi-converter shapes {two converters one file, two converters one file with different packages (must fail), two files in one package, interface + variables block}; the real CLI runs with umask 0 on a scratch module; oracle: the set of created/changed paths equals the independently predicted set, package clause as predicted (configured name, else existing package, else normalised directory name), new files 0644, new directories 0755, merged files parse and the module builds; across input packages: a package whose output directory holds an existing package of another name, referenced by a sibling package through extend / map|FUNC / default, gets byte-identical files in the joint run and when generated alone"
 }
 
 func c15Run(bin, root string, c c15Case) ([]ev.Violation, string) {
